@@ -221,6 +221,16 @@ def _leading(ctx, fn, e, depth=0):
                     info = regex_info(p)
                     if len(info['items']) == 1 and info['items'][0].get('chars'):
                         return set(info['items'][0]['chars']), False, fn, e
+            if isinstance(c.func, ast.Attribute) and c.func.attr == 'split' and isinstance(c.func.value, ast.Name):
+                # COMPILED.split(t, ...)[0] with a module-level COMPILED = re.compile('[class]')
+                try:
+                    _, rx = ctx.repo.module_value(fn.mod, c.func.value.id)
+                except AnalysisError:
+                    rx = None
+                if isinstance(rx, ast.Call) and call_name(rx) == 'compile' and rx.args and isinstance(const(rx.args[0]), str):
+                    info = regex_info(const(rx.args[0]))
+                    if len(info['items']) == 1 and info['items'][0].get('chars'):
+                        return set(info['items'][0]['chars']), False, fn, e
             if isinstance(c.func, ast.Attribute) and c.func.attr == 'split' and len(c.args) >= 1 and isinstance(const(c.args[0]), str):
                 return {const(c.args[0])}, False, fn, e
         # form (c): regex match group of leading digits
